@@ -26,6 +26,21 @@ def main(argv):
     from . import engine
 
     t0 = time.time()
+    if spec.get("ks"):
+        # KS engine shard: loop-head induction obligations discharged by z3 directly (no path exploration)
+        try:
+            import importlib as _il
+
+            d = getattr(_il.import_module(spec["ks"].split(":")[0]), spec["ks"].split(":")[1])()
+        except BaseException as e:  # noqa: BLE001
+            import traceback
+
+            d = {"verdict": "error", "kind": "ks", "errors": [{"kind": "ks-crash", "exc": repr(e)[:500], "tb": traceback.format_exc()[-3000:]}], "wall": time.time() - t0}
+        d["name"] = spec["name"]
+        with open(out_path + ".tmp", "w") as f:
+            json.dump(d, f, default=str)
+        os.replace(out_path + ".tmp", out_path)
+        return
     try:
         scenario = load_scenario(spec)
         res = engine.explore(
